@@ -45,6 +45,27 @@ pub fn rerun(id: &str, tier: Tier, seed: u64, run: u64) -> Option<crate::report:
     }
 }
 
+pub type Runner = Box<dyn Fn(u64) -> crate::report::RunOutcome + Sync>;
+
+/// (number of runs in the batch, function executing one run) with the batch context prepared once
+pub fn runner(id: &str, tier: Tier, seed: u64) -> Option<(u64, Runner)> {
+    match id {
+        "C01" => c01::runner(tier, seed),
+        "C02" => c02::runner(tier, seed),
+        "C03" => c03::runner(tier, seed),
+        "C05" => c05::runner(tier, seed),
+        "C06" => c06::runner(tier, seed),
+        "C08" => c08::runner(tier, seed),
+        "C09" => c09::runner(tier, seed),
+        "C10" => c10::runner(tier, seed),
+        "C15" => c15::runner(tier, seed),
+        "C16" => c16::runner(tier, seed),
+        _ => None,
+    }
+}
+
+pub const ALL: [&str; 10] = ["C01", "C02", "C03", "C05", "C06", "C08", "C09", "C10", "C15", "C16"];
+
 /// replay kind "rerun": execute the whole run again, in its own process, and
 /// look for the recorded violation class (or for the process dying again)
 fn replay_rerun(id: &str, doc: &Value) -> Option<String> {
